@@ -134,3 +134,25 @@ Proof.
   unfold pairs_content, pairs_of. cbn [c_assocs]. rewrite map_flat_map. apply flat_map_ext. intros a.
   unfold split_assoc. rewrite map_flat_map. apply flat_map_ext. intros l. rewrite map_map. reflexivity.
 Qed.
+
+(* correspondence: the rebuild of a pair-by-pair loader (securiCAD) against the model the implementation built, as
+   contents up to the order of assets, associations, attackers and entry points (archives list them in any order;
+   they carry no attacker names) *)
+From MT Require Import Lang Classes.
+Definition akey (a : cassoc) : string :=
+  (cc_class a ++ "/" ++ cc_lfield a ++ "/" ++ String.concat "," (map string_of_Z (cc_left a)) ++ "/" ++ cc_rfield a ++ "/"
+   ++ String.concat "," (map string_of_Z (cc_right a)))%string.
+Definition tkey (t : cattacker) : string :=
+  (string_of_Z (ct_id t) ++ "|" ++
+   String.concat ";" (isort String.leb (map (fun e => (string_of_Z (fst e) ++ ":" ++ String.concat "," (isort String.leb (snd e)))%string) (ct_entry t))))%string.
+Definition by_id (l : list casset) : list casset := isort (fun a b => Z.leb (ca_id a) (ca_id b)) l.
+Definition pairs_load_check (x : lang * content * content) : bool :=
+  let '(L, c, back) := x in
+  match load (class_defenses L) (pairs_content c) with
+  | (s, MOk) =>
+    let got := content_of (class_defenses L) (c_name c) s in
+    list_eqb casset_eqb (by_id (c_assets got)) (by_id (c_assets back)) &&
+    list_eqb seqb (isort String.leb (map akey (c_assocs got))) (isort String.leb (map akey (c_assocs back))) &&
+    list_eqb seqb (isort String.leb (map tkey (c_attackers got))) (isort String.leb (map tkey (c_attackers back)))
+  | _ => negb (loadable (class_defenses L) c)
+  end.
